@@ -46,3 +46,7 @@ package fingerproxy
 //@   ensures [C15:probe-flag-wired] isptr(reverseproxy.HTTPHandler, h) && unboxptr(reverseproxy.HTTPHandler, h) != nil && unboxptr(reverseproxy.HTTPHandler, h).IsProbeRequest == ite(deref(flagEnableKubernetesProbe), reverseproxy.IsKubernetesProbeRequest, nil)
 //@   ensures [C08:preserve-host-flag-wired] unboxptr(reverseproxy.HTTPHandler, h).PreserveHost == deref(flagPreserveHost)
 //@   ensures [C08:injectors-passed] unboxptr(reverseproxy.HTTPHandler, h).HeaderInjectors == headerInjectors && unboxptr(reverseproxy.HTTPHandler, h).To == forwardTo
+
+//@ func defaultTLSConfig :: cw -> cfg
+//@   props C14
+//@   ensures [C14:certificates-only-through-watcher] cfg != nil && cfg.GetCertificate != nil && len(cfg.Certificates) == 0
